@@ -44,7 +44,7 @@ def valuePosition (amount : Dec) (unit : Option PostUnit) : Outcome VP :=
       else if v.value.isNeg then .err
       else match Dec.mul amount v.value with
         | some t => .ok ⟨amount, t, false, u.comm, v.comm⟩
-        | none => .undef
+        | none => Outcome.inexact (Dec.mulOverflows amount v.value)   -- `checked_mul` (fix of F6)
 
 /-- commodity registrations of `handle_posting_value` (strict-mode checks, chart growth) -/
 def registerUnit (st : Settings) (unit : Option PostUnit) : Outcome Settings :=
@@ -83,6 +83,9 @@ def handlePosting (st : Settings) (rp : RawPosting) : Outcome (Posting × Settin
 /-- `posting::txn_sum` -/
 def txnSum (ps : List Posting) : Option Dec := Dec.sum (ps.map (·.txnAmount))
 
+/-- `posting::txn_sum` returns the overflow error (fix of F6) -/
+def txnSumOverflows (ps : List Posting) : Bool := Dec.sumOverflows (ps.map (·.txnAmount))
+
 /-- `parse_txn_postings`: the amount-less last posting gets the negated sum in the first posting's
     transaction commodity and is built through `Posting::from` (fix of F1) -/
 def acceptPostings (st : Settings) (posts : List RawPosting) (last : Option (Path × Option String)) :
@@ -98,7 +101,7 @@ def acceptPostings (st : Settings) (posts : List RawPosting) (last : Option (Pat
       | none => .ok (p0 :: rest, st1)
       | some (a, cmt) =>
         match txnSum (p0 :: rest) with
-        | none => .undef
+        | none => Outcome.inexact (txnSumOverflows (p0 :: rest))      -- `checked_add` (fix of F6)
         | some s =>
           match st1.getOrCreateTxnAccount a p0.txnComm with
           | .err => .err
@@ -149,7 +152,7 @@ def acceptTxn (st : Settings) (r : RawTxn) : Outcome (Txn × Settings) :=
       | p0 :: _ =>
         if ps.any (fun p => p.txnComm != p0.txnComm) then .err      -- `unique().count() > 1`
         else match txnSum ps with
-          | none => .undef
+          | none => Outcome.inexact (txnSumOverflows ps)              -- `checked_add` (fix of F6)
           | some s => if s.isZero then .ok (⟨r.header, ps⟩, st2) else .err
 
 /-- `parse_txns`: every transaction or nothing -/
